@@ -143,7 +143,7 @@ def c12(ctx):
     cov = dict(
         evaluations=rep["evaluations"],
         distinct_nontrivial=rep["extra"]["declaration_applicable"],
-        rule="model: the per-<meta> algorithm on all attribute lists of length <= 4 (%d) and fromMetaElement on %d structured content values agree with the reference (the content values are also rendered into pragmas and replayed). documents: label (%s) x {meta charset, http-equiv pragma} x quoting x attribute order x extra / duplicate attributes x letter case of tag and attribute names x whitespace layout x self-closing x 11 prologues (doctype, html/head, comment / script / title containing a fake meta, another meta, content without http-equiv, leading whitespace, a comment / script / style token of > 4 KiB) x {no mark, UTF-8 mark} x limit {0, default, just past the declaration}; XML: label x quote x {version+encoding, +standalone, spaced} x {none, whitespace, mark} x limit; each rendered by the concretiser and run through Detect; the reported charset must equal the specification's Expected. non-trivial = documents whose result type is text/html resp. text/xml" % (t1["distinct"], t2["distinct"], "8 labels" if quick else "20 labels"),
+        rule="model: the per-<meta> algorithm on all attribute lists of length <= 4 (%d) and fromMetaElement on %d structured content values agree with the reference (the content values are also rendered into pragmas and replayed). documents: label (%s) x {meta charset, http-equiv pragma} x quoting x attribute order x extra / duplicate attributes x letter case of tag and attribute names x whitespace layout x self-closing x 11 prologues (doctype, html/head, comment / script / title containing a fake meta, another meta, content without http-equiv, leading whitespace, a comment / script / style token of > 4 KiB) x {no mark, UTF-8 mark} x limit {0, default, just past the declaration}; plus prologues with a stray Latin-1 byte, a closed head, a body-first page and a body fragment; XML: label x quote x {version+encoding, +standalone, spaced} x {none, whitespace, mark} x limit; each rendered by the concretiser and run through Detect; the reported charset must equal the specification's Expected. non-trivial = documents whose result type is text/html resp. text/xml" % (t1["distinct"], t2["distinct"], "8 labels" if quick else "20 labels"),
         exhaustive=True,
         result_types=rep["extra"]["result_types"],
         not_applicable_documents=rep["extra"]["result_type_other_than_html_xml"],
@@ -196,7 +196,7 @@ def c15(ctx):
     cov = dict(
         evaluations=rep["evaluations"] + h["evaluations"] + d["evaluations"],
         distinct_nontrivial=rep["distinct_nontrivial"],
-        rule="registry dumped from the running tree (%d names); TLC enumerates Is queries for every (format, own name) x decorations {case as-is / UPPER / miXed} x {leading, trailing whitespace: none, spaces, tab, both} x {no parameters, charset, quoted value containing ';' and '/', two parameters, RFC 2231}, negative Is queries against the names of neighbouring formats, EqualsAny for every name x pairs of decorations, Lookup of every name (expected: first format in depth-first order carrying it); plus d.Is(d.String()), EqualsAny(d.String(), d.String()) and Lookup(base(d)).Is(d.String()) on %d detection results carrying quoted / RFC 2231-encoded charset parameters. non-trivial = negative and pairwise queries" % (rep["extra"]["by_op"].get("lookup", 0), h["evaluations"] + d["evaluations"]),
+        rule="registry dumped from the running tree (%d names); TLC enumerates Is queries for every (format, own name) x decorations {case as-is / UPPER / miXed} x {leading, trailing whitespace: none, spaces, tab, both} x {no parameters, charset, quoted value containing ';' and '/', two parameters, RFC 2231}, negative Is queries against the names of neighbouring formats, EqualsAny for every name x pairs of decorations, Lookup of every name (expected: first format in depth-first order carrying it); plus d.Is(d.String()), EqualsAny(d.String(), d.String()) and Lookup(base(d)).Is(d.String()) on %d detection results carrying quoted / RFC 2231-encoded charset parameters. late registrations (a name looked up before and after an Extend that registers it as type or as one of seven unsorted aliases, incl. upper-case type strings); C15 clauses on every corpus result and on each of its ancestors against the aliases of the registered format. non-trivial = negative and pairwise queries" % (rep["extra"]["by_op"].get("lookup", 0), h["evaluations"] + d["evaluations"]),
         exhaustive=True,
         by_op=rep["extra"]["by_op"],
         corpus_results_checked=rep["extra"].get("corpus_results_checked", 0),
